@@ -1,7 +1,10 @@
 #!/usr/bin/env bash
-# try_seed.sh <seed-id> <check ids...> : apply the seeded change to /repo, run the checks, undo it
+# try_seed.sh <seed-id> <check ids...> : apply the seeded change to /repo, run the checks, undo it.
+# Evidence files are saved and restored: committed evidence must describe runs on the unchanged tree.
 ID=$1; shift
 git -C /repo apply /verif/seeded/$ID/patch.diff || exit 2
+SAVE=$(mktemp -d /var/tmp/evsave.XXXXXX)
+cp -a /verif/evidence/*.json $SAVE/ 2>/dev/null
 for c in "$@"; do
   out=$(cd /verif && ./check $c --tier ${TIER:-quick} 2>&1)
   rc=$?
@@ -10,3 +13,6 @@ for c in "$@"; do
   echo "$out" | grep "^INCONCLUSIVE" | head -3 | cut -c1-260
 done
 git -C /repo checkout -- .
+cp -a $SAVE/*.json /verif/evidence/ 2>/dev/null
+rm -rf $SAVE
+rm -f /verif/evidence/replays/*.json
